@@ -35,8 +35,10 @@ impl Prop for C10 {
                     IoSrc::Seed(SeedSpec::Canned("big_buck_bunny_metadata.m4v".into()))
                 } else if r.chance(1, 3) {
                     IoSrc::Seed(SeedSpec::Canned("extended_audio_object_type.mp4".into()))
-                } else {
+                } else if r.chance(1, 2) {
                     IoSrc::Seed(SeedSpec::MuxReloc { seed: r.below(4096) })
+                } else {
+                    IoSrc::Seed(SeedSpec::MuxShuffled { seed: r.below(4096) })
                 }
             }
         };
